@@ -283,6 +283,16 @@ func (g *HistGen) upsertFilter(docs []bson.D) bson.D {
 	if len(f) > 0 && strings.HasPrefix(f[0].Key, "$") {
 		return bson.D{{Key: "_id", Value: g.id()}}
 	}
+	// the id equality is given in one of the forms MongoDB takes the upsert's
+	// _id from: a literal, an explicit $eq, or inside $and
+	switch g.R.Intn(8) {
+	case 0, 1:
+		return append(bson.D{{Key: "_id", Value: bson.D{{Key: "$eq", Value: g.id()}}}}, f...)
+	case 2:
+		if len(f) > 0 {
+			return bson.D{{Key: "$and", Value: bson.A{bson.D{{Key: "_id", Value: g.id()}}, f}}}
+		}
+	}
 	return append(bson.D{{Key: "_id", Value: g.id()}}, f...)
 }
 
